@@ -27,7 +27,7 @@ from fiddle._src.validation import no_custom_objects
 from harness import common, l2, c02
 from harness.common import Failure, Result, Stream
 
-COQ_TARGETS = ["theories/C17Check.vo", "theories/Anchors.vo"]
+COQ_TARGETS = ["theories/C17Check.vo"]
 TRUSTED_BASE = ["APIs without a model (rendering, validation, grep, yaml, code generation) are decided by the "
                 "before/after sweep only; in-place mutation of plain lists/dicts is caught by the comparison of "
                 "contents and identities, not intercepted"]
